@@ -246,7 +246,8 @@ def contract_json(c):
 
 
 def interface_json(i):
-    return {"name": i["name"], "assoc": [{"name": a["name"], "bounds": norm(a["bounds"])} for a in i.get("assoc", [])],
+    return {"name": i["name"], "module": i.get("module", ""),
+            "assoc": [{"name": a["name"], "bounds": norm(a["bounds"]), "tys": a.get("tys", [])} for a in i.get("assoc", [])],
             "custom_msg": i.get("custom_msg"), "custom_query": i.get("custom_query"),
             "msg_attrs": [[a[0], norm(a[1])] for a in i.get("msg_attrs", [])],
             "methods": [method_json(m) for m in i["methods"]]}
